@@ -215,6 +215,27 @@ def rule_switch(ctx: Ctx, rid: str) -> int:
                         got = canon(k.value)
                         ok = got == want
         ctx.ob(rid, rel, fn, f"{q}: njit(parallel={got or 'absent'})", ok, expected=f"parallel={SWITCH}", detail="every parallel kernel must honour the PANDORA_NUMBA_PARALLEL switch (the documented way to get schedule-free results); a hard-coded parallel=True ignores it, and a prange without parallel= runs sequentially whatever the switch")
+        cached = [d for d in fn.decorator_list if isinstance(d, ast.Call) and any(k.arg == "cache" and isinstance(k.value, ast.Constant) and k.value.value is True for k in d.keywords) and any(k.arg == "parallel" and not isinstance(k.value, ast.Constant) for k in d.keywords)]
+        ctx.ob(rid, rel, cached[0] if cached else fn, f"{q}: the build selected by the switch is not cached on disk", not cached, expected="no cache=True next to parallel=<environment switch>", detail="numba's on-disk cache key does not contain `parallel`: with cache=True a process reuses the build cached by a process started with the other value of PANDORA_NUMBA_PARALLEL, so the switch is silently ignored and identical runs differ with the cache they find")
+    return n
+
+
+def rule_float_arange(ctx: Ctx, rid: str, files=None) -> int:
+    """Inside a compiled kernel, np.arange(start, stop, step) with a non-integer step has an ill-defined length (it
+    depends on the precision the quotient is evaluated in): numba's serial and parallel builds were seen to return 71 and
+    70 samples for (0, 0.7, 0.01) in float32.  Sample counts must be computed explicitly."""
+    n = 0
+    for rel in ctx.tree.py_files("pandora"):
+        if files is not None and rel not in files:
+            continue
+        for q, fn in sorted(ctx.tree.funcs(rel).items()):
+            if not any((dotted(d.func if isinstance(d, ast.Call) else d) or "").split(".")[-1] in ("njit", "jit") for d in fn.decorator_list):
+                continue
+            n += 1
+            for c in calls_in(fn):
+                if (dotted(c.func) or "") in ("np.arange", "numpy.arange") and len(c.args) == 3 and not (isinstance(c.args[2], ast.Constant) and isinstance(c.args[2].value, int)):
+                    ctx.ob(rid, rel, c, f"{q}: `{src(c)[:70]}` has a well-defined number of samples", False, expected="an explicit integer count: start + np.arange(count) * step", detail="the length of a float-stepped arange depends on how the quotient (stop - start) / step is rounded; the serial and the parallel numba builds disagree on it, so the products depend on PANDORA_NUMBA_PARALLEL")
+            ctx.ob(rid, rel, fn, f"{q}: no float-stepped np.arange in the kernel", True)
     return n
 
 
